@@ -110,17 +110,24 @@ def _r1(chk, repo):
     chk.add("C16-R1", f"{pc.qual}._apply_Pinv", not problems, site(repo, fp), "flag 2 applies the transposed inverse in all three storage forms", "; ".join(problems), fp)
     # PCGLS.solve uses the pairs in the Bjorck order
     sv = repo.method(pc, "solve")[1]
-    t = _norm(sv)
-    need = ["r=self._b-self._apply_A(x,1)", "s=self._apply_Pinv(self._apply_A(r,2),2)", "t=self._apply_Pinv(p,1)", "q=self._apply_A(t,1)", "x+=alpha_cgls*t", "r-=alpha_cgls*q"]
-    miss = [p for p in need if p not in t]
-    chk.add("C16-R1", f"{pc.qual}.solve", not miss, site(repo, sv), "s = P^-T A^T r, t = P^-1 p, q = A t", f"preconditioned recurrences changed: missing {miss}", sv)
+    from ..pattern import statements as _st, unify as _un
+    pats = ["$x=self._x0.copy()", "$r=self._b-self._apply_A($x,1)", "$s=self._apply_Pinv(self._apply_A($r,2),2)", "$t=self._apply_Pinv($p,1)", "$q=self._apply_A($t,1)",
+            "$x+=$al*$t", "$r-=$al*$q", "$p=$s+$be*$p"]
+    bb, fail = _un(pats, _st(sv, nested=True))
+    chk.add("C16-R1", f"{pc.qual}.solve", bb is not None, site(repo, sv), "s = P^-T A^T r, t = P^-1 p, q = A t, x += alpha t",
+            f"preconditioned recurrences changed: `{pats[fail] if bb is None else ''}` has no consistent match", sv)
     cg = repo.method(repo.cls(f"{SOLVER}:CGLS"), "solve")[1]
-    t = _norm(cg)
-    need = ["x=self.x0.copy()", "p=s.copy()", "delta_cgls=LA.norm(q)**2+self.shift*LA.norm(p)**2", "alpha_cgls=gamma/delta_cgls", "x+=alpha_cgls*p", "r-=alpha_cgls*q",
-            "gamma1=gamma.copy()", "gamma=norms**2", "p=s+gamma/gamma1*p", "flag=norms<=norms0*self.tolornormx*self.tol>=1", "return(x,k)"]
-    miss = [p for p in need if p not in t]
-    chk.add("C16-R1", f"{SOLVER}:CGLS.solve/recurrences", not miss, site(repo, cg), "Hestenes-Stiefel recurrences with shift and relative normal-residual stopping rule",
-            f"CGLS recurrences changed: missing {miss}", cg)
+    from ..pattern import statements, unify
+    S = statements(cg, nested=True)
+    pats = ["$x=self.x0.copy()", "$r=self.b-self.A@$x", "$s=self.A.T@$r-self.shift*$x", "$p=$s.copy()", "$q=self.A@$p",
+            "$del=LA.norm($q)**2+self.shift*LA.norm($p)**2", "$al=$gam/$del", "$x+=$al*$p", "$r-=$al*$q", "$g1=$gam.copy()", "$ns=LA.norm($s)",
+            "$gam=$ns**2", "$p=$s+$gam/$g1*$p", "$flag=$ns<=$ns0*self.tol or $nx*self.tol>=1", "return ($x,$k)"]
+    msgs = ["start from a copy of x0", "residual r = b - A x", "normal residual s = A'r - shift*x", "first direction p = s", "q = A p",
+            "delta = |q|^2 + shift |p|^2", "step length gamma/delta", "x += alpha p", "r -= alpha q", "old gamma kept", "norm of s", "gamma = |s|^2",
+            "p = s + (gamma/gamma_old) p", "relative normal-residual stopping rule", "returns (x, iterations)"]
+    b, fail = unify(pats, S)
+    chk.add("C16-R1", f"{SOLVER}:CGLS.solve/recurrences", b is not None, site(repo, cg), "Hestenes-Stiefel recurrences with shift and relative normal-residual stopping rule",
+            f"CGLS recurrence changed: {msgs[fail] if b is None else ''} (`{pats[fail] if b is None else ''}` has no consistent match)", cg)
 
 
 def _r2(chk, repo):
@@ -188,16 +195,19 @@ def _r3(chk, repo):
 def _r4_r5(chk, repo):
     fi = repo.cls(f"{SOLVER}:FISTA")
     sv = repo.method(fi, "solve")[1]
-    t = _norm(sv)
-    problems = []
-    for pat, msg in (("x=self.x0.copy()", "start from a copy of x0"), ("x_old=x.copy()", "previous iterate copied"),
-                     ("grad=self.A.T@(self.A@x_old-self.b)", "gradient A^T(Ax - b)"),
-                     ("x_new=self.proximal(x_old-stepsize*grad,stepsize)", "prox(x - t*grad, t) with the same t"),
-                     ("ifLA.norm(x_new-x_old)<=self.abstolork>=self.maxit:return(x_new,k)", "stops on small update or maxit, returning the proximal point"),
-                     ("ifself.adaptive:x_new=x_new+(k-1)/(k+2)*(x_new-x_old)", "momentum only when adaptive"),
-                     ("stepsize=self.stepsize", "configured step size")):
-        if pat not in t:
-            problems.append(f"{msg} (`{pat}` not found)")
+    from ..pattern import statements, unify
+    S = statements(sv, nested=True)
+    pats = ["$x=self.x0.copy()", "$t=self.stepsize", "$xo=$x.copy()", "$g=self.A.T@(self.A@$xo-self.b)", "$xn=self.proximal($xo-$t*$g,$t)",
+            "if: LA.norm($xn-$xo)<=self.abstol or $k>=self.maxit", "return ($xn,$k)", "if: self.adaptive", "$xn=$xn+($k-1)/($k+2)*($xn-$xo)", "$x=$xn.copy()"]
+    msgs = ["start from a copy of x0", "configured step size", "previous iterate copied", "gradient A'(Ax - b)", "prox(x - t*grad, t) with the same t",
+            "stops on small update or maxit", "returns the proximal point", "momentum only when adaptive", "FISTA momentum", "next iterate"]
+    b, fail = unify(pats, S)
+    problems = [] if b is not None else [f"{msgs[fail]} (`{pats[fail]}` has no consistent match)"]
+    if b is not None:
+        g = CFG(sv)
+        mom = [n for n in g.nodes if n.ast is not None and n.kind == "stmt" and _norm(n.ast).startswith(f"{b['xn']}={b['xn']}+")]
+        if not mom or not any(_norm(t.ast) == "self.adaptive" and lab == "T" for t, lab in g.guards_of(mom[0])):
+            problems.append("momentum step is not restricted to the adaptive (FISTA) mode")
     chk.add("C16-R4", f"{fi.qual}.solve", not problems, site(repo, sv), "(F)ISTA iteration", "; ".join(problems), sv)
     for name, want in (("ProjectNonnegative", ["returnnp.maximum(x,0)"]),
                        ("ProjectBox", ["iflowerisNone:lower=np.zeros_like(x)", "ifupperisNone:upper=np.ones_like(x)", "returnnp.minimum(np.maximum(x,lower),upper)"]),
